@@ -151,6 +151,9 @@ def build_inputs(c):
     rng = np.random.default_rng(c["data_seed"])
     series = [make_series(rng, T, c["N"], c["n_regimes"], c["scale"], offset=c.get("offset", 0.0))
               for T in c["lens"]]
+    if c.get("ramp"):
+        r3 = np.random.default_rng(c["data_seed"] + 11)       # a noisy ramp: as many distinguishable levels as clusters
+        series = [np.arange(T)[:, None] * 0.05 + r3.normal(0, 0.02, (T, c["N"])) for T in c["lens"]]
     if c.get("outlier"):
         r2 = np.random.default_rng(c["data_seed"] + 3)
         series[0] = np.concatenate([r2.normal(0, 1, (len(series[0]) // 2, c["N"])),
@@ -228,7 +231,7 @@ def _swapped_call(fast_ticc, how, series, hyper):
         return fast_ticc.ticc_labels(tuple(series), **hyper)
     if how == "generator_to_single":
         return fast_ticc.ticc_labels(iter(series), **hyper)
-    if how == "array_to_joint":
+    if how in ("array_to_joint", "wide_array_to_joint"):
         return fast_ticc.ticc_joint_labels(series[0], **hyper)
     if how == "vector_to_joint":
         return fast_ticc.ticc_joint_labels(series[0][:, 0], **hyper)
